@@ -4,6 +4,8 @@ the whole pipeline (C01 mapping → C02 minimum image → C03 exclusions → C13
 number with everything the REAL csg_stat executable (built from the working tree) writes on complete generated inputs."""
 import glob, os, re, sys
 import vlib, vbuild
+sys.path.insert(0, os.path.join(vlib.VERIF, "tools", "translate"))
+import tr_c04 as tr
 
 PROP = "C04"
 HARNESS = os.path.join(vlib.VERIF, "harness", "c04.py")
@@ -16,7 +18,15 @@ def build():
 
 def run(tier, seed, replay=None):
     ck = vlib.Check(PROP, tier, seed)
+    tr_err = None
+    try:
+        ck.extra["translator"] = tr.translate()
+    except Exception as e:
+        tr_err = "translator could not read csg_stat_imc.cc / average.h: %r" % (e,)
     ob = vlib.lean_obligations(PROP, thorough=(tier == "thorough"))
+    if tr_err:
+        ob["ok"] = False
+        ob["failures"].append(tr_err)
     try:
         exe = build()
     except vbuild.BuildError as e:
